@@ -2,6 +2,7 @@ package main
 
 import (
 	"bytes"
+	"errors"
 	"fmt"
 	"io"
 	"net"
@@ -16,6 +17,12 @@ import (
 // conntrackPart: conntrack.Builder{TrackTraffic:true} wrapped around one end of a TCP pair,
 // driven with Read / Write / ReadFrom mixes and closed by 1-8 goroutines at once: Rx/Tx must
 // equal the bytes the peer sent/received and OnClose must fire exactly once.
+type failingReader struct{}
+
+func (failingReader) Read([]byte) (int, error) { return 0, errSourceFailed }
+
+var errSourceFailed = errors.New("verif: copy source failed")
+
 func conntrackPart(run *lib.Run, root *lib.RNG) {
 	const base = 5_000_000
 	l, err := net.Listen("tcp", "127.0.0.1:0")
@@ -46,7 +53,8 @@ func conntrackPart(run *lib.Run, root *lib.RNG) {
 		// peer -> c : rxN bytes; c -> peer : txN bytes via Write and ReadFrom mixes
 		rxN, txW, txRF := r.Intn(200000), r.Intn(100000), r.Intn(200000)
 		closers := r.Range(1, 8)
-		run.Case(idx, fmt.Sprintf("conntrack|track=%v|closers=%d", track, closers), nil)
+		srcFails := r.Sub(6).Chance(1, 3)
+		run.Case(idx, fmt.Sprintf("conntrack|track=%v|closers=%d|readfrom-source-fails=%v", track, closers, srcFails), nil)
 		var wg sync.WaitGroup
 		var peerGot int64
 		wg.Add(2)
@@ -83,10 +91,16 @@ func conntrackPart(run *lib.Run, root *lib.RNG) {
 				c.Write(data[:k])
 				data = data[k:]
 			}
+			// the source of the ReadFrom copy ends with EOF or, in a third of the cases, with an
+			// error after its last byte (a copy cut by a fault still moved the bytes before it)
+			var src io.Reader = bytes.NewReader(r.Sub(5).Bytes(txRF))
+			if srcFails {
+				src = io.MultiReader(src, failingReader{})
+			}
 			if rf, ok := c.(io.ReaderFrom); ok {
-				rf.ReadFrom(bytes.NewReader(r.Sub(5).Bytes(txRF)))
+				rf.ReadFrom(src)
 			} else {
-				io.Copy(c, bytes.NewReader(r.Sub(5).Bytes(txRF)))
+				io.Copy(c, src)
 			}
 			lib.CloseWrite(c)
 			<-done
@@ -108,7 +122,7 @@ func conntrackPart(run *lib.Run, root *lib.RNG) {
 		peer.Close()
 		time.Sleep(time.Millisecond)
 		run.Count("conntrack_conns_checked", 1)
-		wit := map[string]any{"track_traffic": track, "closers": closers, "peer_sent": rxN, "written": txW, "readfrom": txRF}
+		wit := map[string]any{"track_traffic": track, "closers": closers, "peer_sent": rxN, "written": txW, "readfrom": txRF, "readfrom_source_ends_with_error": srcFails}
 		if cnt := closes.Load(); cnt != 1 {
 			run.Violation("onclose-not-exactly-once", fmt.Sprintf("OnClose fired %d times with %d concurrent closers", cnt, closers), idx, wit)
 		}
